@@ -18,14 +18,19 @@ KINDS = {"i": ("i64", "{v}", "{v}", "{v}"), "s": ("&str", '"s{v}"', '"s{v}"', "s
 DEPS = ["impl", "gen", "nodeps", "concrete"]
 
 
+PNAME_FN = [False]     # render-time switch: the first parameter is spelled like the function (`fm`)
+
+
 def pname(k, i):
+    if PNAME_FN[0] and i == 0 and k != "u":
+        return "fm"
     return "(x%d, y%d)" % (i, i) if k == "u" else "x%d" % i
 
 
 def shows(word):
     out = []
     for i, k in enumerate(word):
-        out += ["x%d" % i, "y%d" % i] if k == "u" else ["x%d" % i]
+        out += ["x%d" % i, "y%d" % i] if k == "u" else [pname(k, i)]
     return out
 
 
@@ -53,6 +58,8 @@ def enumerate_states(tier):
                             continue   # (mockall's own derive: sync, non-generic traits only)
                         if var == "maybe_send" and not asy:
                             continue
+                        if var == "pname" and (len(w) != 1 or w[0] == "u"):
+                            continue
                         states.append(dict(key="u_fn_%s_%s_%s_%s" % (word or "0", deps, "a" if asy else "s", var), mode="fn", word=word, deps=deps,
                                            asy=asy, variant=var))
         if word == "ii":
@@ -77,6 +84,8 @@ VARIANTS = {
     # qualifiers and the Send opt-out do not belong to the wiring: the un-mocked call must reach the function all the same
     "unsafe": ("entrait", "", "unsafe "),
     "maybe_send": ("entrait", ", ?Send"),
+    # the first parameter is named like the function (it is renamed in the generated method; the un-mock call must still reach the fn)
+    "pname": ("entrait", "", "", True),
 }
 NAMES3 = ["fm", "fa", "fz"]      # declared in a non-alphabetical order on purpose
 
@@ -88,6 +97,14 @@ def names(s):
 
 
 def render(s):
+    PNAME_FN[0] = len(VARIANTS.get(s.get("variant"), ())) > 3
+    try:
+        return render_(s)
+    finally:
+        PNAME_FN[0] = False
+
+
+def render_(s):
     key, word, deps, asy = s["key"], s["word"], s["deps"], s["asy"]
     A = "async " if asy else ""
     params = ", ".join("%s: %s" % (pname(k, i), KINDS[k][0]) for i, k in enumerate(word))
